@@ -145,3 +145,44 @@ assert encrypt_block(bytes(range(32)), bytes.fromhex("00112233445566778899aabbcc
     "8ea2b7ca516745bfeafc49904b496089"
 assert decrypt_block(bytes(range(24)), bytes.fromhex("dda97ca4864cdfe06eaf70a0ec0d7191")).hex() == \
     "00112233445566778899aabbccddeeff"
+
+
+# ---- SP 800-38A modes on top of encrypt_block / decrypt_block (reference for prop.aesmode) ----------------------------
+def mode_stream(kind, key, iv, ctr, seg, data, decrypt=False):
+    """the whole message through one mode (ECB/CBC: whole blocks; CFB: whole segments; OFB/CTR: any length)"""
+    out = bytearray()
+    if kind == "ecb":
+        for i in range(0, len(data), 16):
+            out += (decrypt_block if decrypt else encrypt_block)(key, data[i:i + 16])
+    elif kind == "cbc":
+        prev = iv
+        for i in range(0, len(data), 16):
+            b = data[i:i + 16]
+            if decrypt:
+                out += bytes(x ^ y for x, y in zip(decrypt_block(key, b), prev))
+                prev = b
+            else:
+                prev = encrypt_block(key, bytes(x ^ y for x, y in zip(b, prev)))
+                out += prev
+    elif kind == "cfb":
+        reg = iv
+        for i in range(0, len(data), seg):
+            s = data[i:i + seg]
+            o = bytes(x ^ y for x, y in zip(s, encrypt_block(key, reg)))
+            out += o
+            reg = (reg + (s if decrypt else o))[-16:]
+    elif kind == "ofb":
+        reg, ks = iv, b""
+        while len(ks) < len(data):
+            reg = encrypt_block(key, reg)
+            ks += reg
+        out += bytes(x ^ y for x, y in zip(data, ks))
+    elif kind == "ctr":
+        c, ks = ctr % 2 ** 128, b""
+        while len(ks) < len(data):
+            ks += encrypt_block(key, c.to_bytes(16, "big"))
+            c = (c + 1) % 2 ** 128
+        out += bytes(x ^ y for x, y in zip(data, ks))
+    else:
+        raise ValueError(kind)
+    return bytes(out)
